@@ -29,7 +29,8 @@ RULE = ("VapiRouter family: cases = every entry of NewRouter's table (every meth
         "leading zeros, overflow, sign, letters, hex, missing, empty, duplicated; hex without 0x / upper case / short / long / bad; ids "
         "as indices / pubkeys / csv / repeated / mixed / in the body); Eth-Consensus-Version missing / unknown / other case / wrong "
         "for the endpoint; body empty / truncated / garbage / of another shape / with an unknown field / of another fork; what the "
-        "scripted Handler answers (n objects, every version x blinded, missing field, metadata variants, error, panic) and what the "
+        "scripted Handler answers (n objects, every version x blinded, missing field, metadata variants, error, panic, blocking until the "
+        "client goes away / until the request timeout) and what the "
         "upstream answers (statuses, credentials in the address, hop-by-hop headers, unparsable address) -- ENUMERATED by TLC "
         "(VapiRouterGen, states = cases); literal values, forks of the altered cases and paths outside the table re-drawn from the seed. "
         "Executed as real HTTP requests (8 in flight) against the real validatorapi.NewRouter (builder flag off / on) served by "
@@ -396,6 +397,19 @@ def mutators():
             return t
         return None
 
+    def context_not_cancelled(t):
+        for i in ev(t, "CtxEnd"):
+            if t[i]["ctxerr"] == "canceled":
+                t[i]["ctxerr"] = "deadline"
+                return t
+        return None
+
+    def context_never_ended(t):
+        for i in ev(t, "CtxEnd"):
+            t[i]["ctxerr"] = "none"
+            return t
+        return None
+
     def redirect_elsewhere(t):
         for i in ev(t, "Resp"):
             if t[i]["status"] == 301:
@@ -414,7 +428,8 @@ def mutators():
             ("the proxy lost the body", proxy_lost_body), ("a proxied 404 turned into 200", proxied_status_changed),
             ("proxy call dropped", proxy_call_dropped), ("upstream reached without the address's credentials", upstream_without_credentials),
             ("a hop-by-hop header reached the upstream", upstream_saw_hop_header), ("listener dead after a panic", listener_dead),
-            ("redirect to another location", redirect_elsewhere)]
+            ("redirect to another location", redirect_elsewhere),
+            ("the Handler's context outlived the client", context_not_cancelled), ("the Handler's context never ended", context_never_ended)]
 
 
 # ----------------------------------------------------------------------------------------------------------------------
@@ -425,6 +440,7 @@ CONTROLS = (("VapiRouterMC_ctl_anymethod.cfg", "Exclusive", "the method matcher 
             ("VapiRouterMC_ctl_duplast.cfg", "ArgFidelity", "a duplicated uint parameter takes the last value"),
             ("VapiRouterMC_ctl_bbfquery.cfg", "ArgFidelity", "the builder boost factor is taken from the request"),
             ("VapiRouterMC_ctl_blindedflip.cfg", "RespFidelity", "the blinded flag of the proposal response is inverted"),
+            ("VapiRouterMC_ctl_bgctx.cfg", "CtxPropagates", "the Handler is called with a context that does not end when the client goes away"),
             ("VapiRouterMC_ctl_clientfault500.cfg", "ClientFault4xx", "AS CODED: client faults answered 500 (the known finding)"))
 WORKERS = int(os.environ.get("VERIF_TLC_WORKERS", "0")) or None
 
@@ -478,6 +494,13 @@ def stage(o, tier, seed):
         for k in range(2):
             sch += [s for s in (concretise(r, c) for c in cases) if s]
     r.shuffle(sch)                      # neighbours in flight together are unrelated
+    # a call that blocks until the request timeout takes 10 s of wall time: a few of them, last (in flight together)
+    slow = [x for x in sch if x[0]["ans"]["kind"] == "timeout"]
+    keep = [x for x in slow if x[0]["ep"] in ("attestation_data", "submit_sync_committee_messages", "propose_block_v3")][:3] \
+        + [x for x in slow if x[0]["ep"] == "other"][:2]
+    if thorough:
+        keep = slow[:16]
+    sch = [x for x in sch if x[0]["ans"]["kind"] != "timeout"] + keep
     o.extra["vapirouter_cases_enumerated_by_tlc"] = len(cases)
     # The known finding first: its three schedules are validated against the STRICT configuration (client faults are 4xx).  On the
     # pinned tree they are rejected there and accepted as coded -> KNOWN-FINDING, and the batch is validated as coded; on a tree
